@@ -1852,8 +1852,31 @@ pub fn expr_cfgs(tier: Tier) -> Vec<ECfg> {
         concat: true,
         trace: false,
     };
+    // E6: depth 2 over plain bool variables: `not` / and / or / == applied to variables directly (no tracing
+    // call in between), the shapes the optimizer's register forms and jump rewrites see
+    let e6 = ECfg {
+        name: "E6-depth2-bools",
+        depth: 2,
+        ints: vec![],
+        bools: vec!["p", "q"],
+        strs: vec![],
+        arith: vec![],
+        cmp: vec![],
+        strcmp: vec![],
+        booleq: vec!["==", "!="],
+        logic: vec!["and", "or"],
+        not: true,
+        neg: false,
+        if_int: false,
+        if_str: false,
+        blk: false,
+        blk2: false,
+        call2: false,
+        concat: false,
+        trace: false,
+    };
     match tier {
-        Tier::Quick => vec![e1, e2, e5],
+        Tier::Quick => vec![e1, e2, e5, e6],
         Tier::Thorough => {
             let e2w = traced("E2w-depth2-traced-2leaves", 2, true);
             // E3: depth 2, every operator, a variable and a literal leaf per type (one string leaf), untraced
@@ -1922,7 +1945,7 @@ pub fn expr_cfgs(tier: Tier) -> Vec<ECfg> {
                 concat: false,
                 trace: true,
             };
-            vec![e1, e2, e2w, e3, e4a, e4b, e5]
+            vec![e1, e2, e2w, e3, e4a, e4b, e5, e6]
         }
     }
 }
@@ -2074,6 +2097,9 @@ fn loop_body_stmts(with_j: bool) -> Vec<String> {
         "if a > 7 {\nbreak\n}",
         "if b < 5 {\ncontinue\n}",
         "return",
+        // empty blocks: the condition is evaluated and nothing else happens
+        "if a > 7 {\n}",
+        "if b < 5 {\n} else {\n}",
     ]);
     if with_j {
         v.push("a += j".into());
